@@ -2,7 +2,7 @@
 import vlib
 from props import recfam
 
-INV = ['C07_LinearMonotone', 'C07_StepsMonotone', 'C07_GraphMonotone', 'C07_CtlMonotone']
+INV = ['C07_LinearMonotone', 'C07_StepsMonotone', 'C07_GraphMonotone', 'C07_CtlMonotone', 'C07_CtlRateMonotone']
 
 
 def check(run):
